@@ -82,6 +82,7 @@ type wctx struct {
 	ts        *mocks.TrustStore
 	envV      map[string]bothVerifier
 	matrixV   map[string]cachedVerifier
+	lastAlloc uint64 // TotalAlloc delta of the most recent protected call
 	layoutSeq int
 }
 
@@ -100,6 +101,9 @@ func newWctx(fx *Fixture, scratch string) (*wctx, error) {
 	dir.UserLibexecDir = filepath.Join(scratch, "libexec")
 	dir.UserCacheDir = filepath.Join(scratch, "cache")
 	x.ts = mocks.NewTrustStore().Put("ca", "s", fx.root())
+	if tsaRoot, err := x509.ParseCertificate(fx.TSARootDER); err == nil {
+		x.ts.Put("tsa", "t", tsaRoot)
+	}
 	x.ts.NoLog = true
 	return x, nil
 }
@@ -160,7 +164,8 @@ func (x *wctx) call(res *Result, c *Case, entry string, f func(stage *string)) (
 	if d > res.MaxAlloc {
 		res.MaxAlloc = d
 	}
-	if d > allocCeiling && len(c.Input) <= smallInput {
+	x.lastAlloc = d
+	if d > allocCeiling && len(c.Input) <= smallInput && !c.BigInput {
 		res.viol(allocKey(c), "%s allocated %d MiB (ceiling %d MiB) for an input of %d bytes | case: %s", stage, d>>20, allocCeiling>>20, len(c.Input), c.describe())
 	}
 	return panicked
@@ -196,6 +201,8 @@ func panicKey(c *Case, stage string) string {
 		return "panic/oci-layout-byte-mutation:" + c.Kind + ":" + stage
 	case "oci-layout":
 		return "panic/json-node:" + c.Kind + ":" + c.Class + ":" + stage
+	case "oversized-plugin-output":
+		return "panic/oversized-plugin-output:" + c.Kind + ":" + c.Variant
 	case "plugin-output":
 		return "panic/plugin-output:" + c.Kind + ":" + c.Variant + ":" + c.Class + ":" + stage
 	}
@@ -206,6 +213,8 @@ func allocKey(c *Case) string {
 	switch c.Family {
 	case "config-matrix", "reader-seam":
 		return "runaway-allocation:" + c.Family
+	case "oversized-plugin-output":
+		return "runaway-allocation:oversized-plugin-output:" + c.Kind + ":" + c.Variant
 	case "nil-arguments":
 		return "runaway-allocation:nil-arguments:" + c.Label
 	case "envelope-byte-mutation", "crl-der-byte-mutation", "document-byte-mutation", "oci-layout-byte-mutation":
@@ -383,11 +392,18 @@ func (m *mockRepo) PushSignature(context.Context, string, []byte, ocispec.Descri
 
 func (x *wctx) matrixOptions(t *Tuple) verifier.VerifierOptions {
 	sv := trustpolicy.SignatureVerification{VerificationLevel: t.Level}
+	sv.VerifyTimestamp = trustpolicy.TimestampOption(t.VerifyTS)
 	stores, ids := []string{"ca:s"}, []string{"*"}
+	if t.TSAStore {
+		stores = append(stores, "tsa:t")
+	}
 	if t.Level == "skip" {
 		stores, ids = nil, nil
 	}
 	var o verifier.VerifierOptions
+	if t.TSVal == "supplied" {
+		o.RevocationTimestampingValidator = okValidator()
+	}
 	if t.Cons == "oci" || t.Cons == "both" {
 		scopes := []string{"*"}
 		if t.Place == "oci-scope" {
@@ -418,7 +434,12 @@ func (x *wctx) matrixSig(t *Tuple, kind string) ([]byte, string) {
 	if at == "" {
 		at = "none"
 	}
-	name := func(f string) []byte { return x.fx.Sigs[matrixSigName(kind, f, t.Plug, at)] }
+	name := func(f string) []byte {
+		if t.TS != "" && t.TS != "none" {
+			return x.fx.Sigs[timestampSigName(kind, f, t.TS)]
+		}
+		return x.fx.Sigs[matrixSigName(kind, f, t.Plug, at)]
+	}
 	switch t.Sig {
 	case "jws":
 		return name("jws"), mtJWS
@@ -446,7 +467,7 @@ type cachedVerifier struct {
 // matrixVerifier constructs the verifier of a cell inside a protected call; one instance per configuration is
 // kept per worker, so most cells run on an instance that has already served other calls (a history on one instance).
 func (x *wctx) matrixVerifier(res *Result, c *Case, t *Tuple) (cachedVerifier, bool) {
-	key := t.Cons + "/" + t.PM + "/" + t.Rev + "/" + t.Level + "/" + t.Place
+	key := t.Cons + "/" + t.PM + "/" + t.Rev + "/" + t.Level + "/" + t.Place + fmt.Sprintf("/%v/%s/%s", t.TSAStore, t.TSVal, t.VerifyTS)
 	if cv, ok := x.matrixV[key]; ok {
 		return cv, false
 	}
@@ -563,6 +584,9 @@ func (x *wctx) runMatrix(c *Case, res *Result) {
 	res.Nontrivial = true
 	class := x.matrixCall(res, c, t, cv, wholeReader)
 	res.class("%s%s", pre, class)
+	if t.TS != "" {
+		res.class("config-matrix/timestamp:%s,tsa-store=%v,verifyTimestamp=%s:%s", t.TS, t.TSAStore, t.VerifyTS, coarse(class))
+	}
 	if t.Attr != "none" || t.Artifact != "matching" || t.Meta != "none" {
 		kind := "oci"
 		if t.Ref == "" {
@@ -575,7 +599,7 @@ func (x *wctx) runMatrix(c *Case, res *Result) {
 			res.class("config-matrix/artifact-metadata:%s:artifact=%s,metadata=%s:%s", kind, t.Artifact, t.Meta, coarse(class))
 		}
 	}
-	if t.Cons == "both" && t.Level == "strict" && t.Sig == "jws" && !t.Plug && (t.Ref == "digest" || t.Ref == "") && t.Attr == "none" && t.Artifact == "matching" && t.Meta != "unsatisfied" {
+	if t.TS == "" && t.Cons == "both" && t.Level == "strict" && t.Sig == "jws" && !t.Plug && (t.Ref == "digest" || t.Ref == "") && t.Attr == "none" && t.Artifact == "matching" && t.Meta != "unsatisfied" {
 		res.Controls++
 		if class == "accepted" {
 			res.ControlsOK++
@@ -1511,6 +1535,78 @@ func (x *wctx) runPlugin(c *Case, res *Result) error {
 }
 
 // ---------------------------------------------------------------------------
+// family: oversized plugin output. The plugin answers with its valid response followed by N blanks (stdout) or
+// exits 1 with its error followed by N blanks (stderr), for two sizes far above any answer. "Never runaway
+// allocation" is judged relatively, not against the library's own cap: of the additional output between the two
+// sizes, at most half may turn up as additional allocation of the call.
+
+const (
+	oversizeSmall = 160 << 20
+	oversizeLarge = 480 << 20
+)
+
+func (x *wctx) runOversized(c *Case, res *Result) error {
+	if err := x.installPlugin(); err != nil {
+		return err
+	}
+	var deltas [2]uint64
+	var classes [2]string
+	for k, size := range []int{oversizeSmall, oversizeLarge} {
+		cmds := map[string]map[string]any{}
+		for _, cmd := range protoCommands {
+			cmds[cmd] = map[string]any{"stdout": x.fx.PluginOut[cmd]}
+		}
+		if c.Variant == "stderr" {
+			cmds[c.Kind] = map[string]any{"exit": 1, "stderr": x.fx.PluginOut["stderr"], "stderr_pad": size}
+		} else {
+			cmds[c.Kind] = map[string]any{"stdout": x.fx.PluginOut[c.Kind], "stdout_pad": size}
+		}
+		if err := os.WriteFile(x.plugExe+".json", mustJSON(map[string]any{"name": pluginName, "version": "1.0.0", "commands": cmds}), 0o644); err != nil {
+			return err
+		}
+		class := "panicked"
+		x.call(res, c, "plugin.CLIPlugin."+c.Kind, func(*string) {
+			pl, err := plugin.NewCLIPlugin(ctx, pluginName, x.plugExe)
+			if err != nil {
+				class = "plugin-not-created"
+				return
+			}
+			switch c.Kind {
+			case "get-plugin-metadata":
+				_, err = pl.GetMetadata(ctx, &fw.GetMetadataRequest{})
+			case "describe-key":
+				_, err = pl.DescribeKey(ctx, &fw.DescribeKeyRequest{KeyID: keyID})
+			case "generate-signature":
+				_, err = pl.GenerateSignature(ctx, &fw.GenerateSignatureRequest{KeyID: keyID, KeySpec: fw.KeySpecEC256, Hash: fw.HashAlgorithmSHA256, Payload: []byte("payload")})
+			case "generate-envelope":
+				_, err = pl.GenerateEnvelope(ctx, &fw.GenerateEnvelopeRequest{KeyID: keyID, PayloadType: "application/vnd.cncf.notary.payload.v1+json", SignatureEnvelopeType: mtJWS, Payload: []byte("{}")})
+			case "verify-signature":
+				_, err = pl.VerifySignature(ctx, &fw.VerifySignatureRequest{Signature: fw.Signature{CriticalAttributes: fw.CriticalAttributes{ContentType: "x", SigningScheme: "notary.x509"}}, TrustPolicy: fw.TrustPolicy{TrustedIdentities: []string{"*"}, SignatureVerification: []fw.Capability{fw.CapabilityTrustedIdentityVerifier}}})
+			}
+			if err != nil {
+				_ = err.Error()
+				class = "error"
+			} else {
+				class = "accepted"
+			}
+		})
+		deltas[k], classes[k] = x.lastAlloc, class
+		runtime.GC()
+		debug.FreeOSMemory()
+	}
+	res.Nontrivial = true
+	extraOut := uint64(oversizeLarge - oversizeSmall)
+	if deltas[1] > deltas[0] && deltas[1]-deltas[0] > extraOut/2 {
+		res.viol("runaway-allocation:oversized-plugin-output:"+c.Kind+":"+c.Variant, "plugin.CLIPlugin.%s: %d MiB allocated for %d MiB of plugin %s, %d MiB for %d MiB: the allocation grows with the output (more than half of the additional %d MiB) | case: %s",
+			c.Kind, deltas[0]>>20, oversizeSmall>>20, c.Variant, deltas[1]>>20, oversizeLarge>>20, extraOut>>20, c.describe())
+		res.class("oversized-plugin-output:%s:%s:violation", c.Kind, c.Variant)
+		return nil
+	}
+	res.class("oversized-plugin-output:%s:%s:allocation-bounded(%s,%s)", c.Kind, c.Variant, classes[0], classes[1])
+	return nil
+}
+
+// ---------------------------------------------------------------------------
 // family: nil / empty / degenerate arguments (the API documents an error)
 
 type failingReader struct{}
@@ -1731,7 +1827,7 @@ func (x *wctx) runSettled(c *Case, isolated bool) (*Result, error) {
 		if calls == 0 {
 			calls = 1
 		}
-		if d > allocCeiling*calls && len(c.Input) <= smallInput {
+		if d > allocCeiling*calls && len(c.Input) <= smallInput && !c.BigInput {
 			already := false
 			for _, v := range res.Viols {
 				if strings.HasPrefix(v.Key, "runaway-allocation") {
@@ -1766,6 +1862,8 @@ func (x *wctx) run(c *Case) (*Result, error) {
 		err = x.runLayout(c, res)
 	case "plugin-output":
 		err = x.runPlugin(c, res)
+	case "oversized-plugin-output":
+		err = x.runOversized(c, res)
 	default:
 		err = fmt.Errorf("unknown family %q", c.Family)
 	}
